@@ -60,6 +60,7 @@ KF_VECSYM_COMPLEX = 'KF-vecsym-utpm-complex'
 KF_BD_COMPLEX = 'KF-base_and_dirs-complex'      # utpm2base_and_dirs and base_and_dirs2utpm (a round trip needs both)
 KF_COMBINE_COMPLEX = 'KF-combine_blocks-complex'
 KF_COMBINE_LIST = 'KF-combine_blocks-list'
+KF_MIXED_DTYPE = 'KF-container-mixed-dtype'      # as_utpm / ndarray2utpm take the dtype of the FIRST element for the whole result
 
 
 def _note_steered(case, stats):
@@ -124,6 +125,8 @@ def _arr(draw, shape, kind):
         return draw(hnp.arrays(np.int64, shape, elements=st.integers(-9, 9), fill=st.nothing()))
     if kind == 'f':
         return draw(hnp.arrays(np.float64, shape, elements=_felem(), fill=st.nothing()))
+    if kind == 'f4':        # float32: dyadic values, exactly representable
+        return draw(hnp.arrays(np.float32, shape, elements=st.integers(-64, 64).map(lambda k: k / 8.0), fill=st.nothing()))
     re = draw(hnp.arrays(np.float64, shape, elements=_felem(), fill=st.nothing()))
     im = draw(hnp.arrays(np.float64, shape, elements=_felem(), fill=st.nothing()))
     return re + 1j * im
@@ -162,10 +165,10 @@ def _lay(a, layout, perm=None):
     if layout == 'F':
         return np.array(a, order='F', copy=True)
     if layout == 'T':
-        return np.ascontiguousarray(a.T).T
+        return np.array(a.T, order='C', copy=True).T
     if layout == 'perm':
         perm = [int(i) for i in perm]
-        return np.ascontiguousarray(a.transpose(perm)).transpose([int(i) for i in np.argsort(perm)])
+        return np.array(a.transpose(perm), order='C', copy=True).transpose([int(i) for i in np.argsort(perm)])
     if layout == 'strided':
         big = np.zeros(tuple(2 * n for n in a.shape), dtype=a.dtype)
         v = big[tuple(slice(None, None, 2) for _ in a.shape)]
@@ -173,7 +176,7 @@ def _lay(a, layout, perm=None):
         return v
     if layout == 'reversed':
         sl = tuple(slice(None, None, -1) for _ in a.shape)
-        return np.ascontiguousarray(a[sl])[sl]
+        return np.array(a[sl], order='C', copy=True)[sl]
     raise KeyError(layout)
 
 
@@ -198,6 +201,26 @@ def _draw_layout(draw, case, ndim, key='layout', perm=True):
 
 def _layout_classes(case, key='layout'):
     return ['%s=%s' % (key, case.get(key) or 'C')]
+
+
+@st.composite
+def _mix_add(draw, shape, base_kind):
+    """an increment of a WIDER dtype for one element / block: non-integers for integer data, imaginary parts for real data"""
+    shape = tuple(int(n) for n in shape)
+    if base_kind == 'i':
+        a = draw(hnp.arrays(np.float64, shape, elements=st.integers(-8, 8).map(lambda k: k / 4.0), fill=st.nothing()))
+        a.flat[0] = 0.5
+        return a
+    a = draw(hnp.arrays(np.float64, shape, elements=st.integers(-8, 8).map(lambda k: k / 4.0), fill=st.nothing()))
+    a.flat[0] = 1.0
+    return 1j * a
+
+
+def _apply_mix(full, sl, add):
+    """expected result when the part ``sl`` of ``full`` got the wider-dtype increment ``add``"""
+    out = full.astype(np.result_type(full.dtype, add.dtype))
+    out[sl] = out[sl] + add
+    return out
 
 
 def _dtype_classes(a):
@@ -226,6 +249,10 @@ def prop_b2u_u2b(case, stats):
     """(x, V) -> UTPM -> (x, V)"""
     _note_steered(case, stats)
     x, V = case['x'], case['V']
+    if case.get('x_longdouble'):
+        x = x.astype(np.longdouble)
+    if case.get('V_longdouble'):
+        V = V.astype(np.longdouble)
     xin, Vin = _lay_case(case, x), _lay_case(case, V)
     if case.get('as_list'):
         xin, Vin = xin.tolist(), Vin.tolist()
@@ -242,14 +269,22 @@ def prop_b2u_u2b(case, stats):
 @st.composite
 def b2u_cases(draw):
     steered = []
-    kind = _steer_kind(draw(_kind()), [KF_BD_COMPLEX], steered)
+    # base point and directions get their dtypes independently: complex/real, real/complex, int/float, float32/float64, longdouble
+    pair = draw(st.sampled_from([('f', 'f'), ('f', 'f'), ('f', 'f'), ('i', 'i'), ('c', 'c'), ('f4', 'f4'),
+                                 ('c', 'f'), ('c', 'f'), ('c', 'i'), ('f', 'c'), ('i', 'c'), ('i', 'f'), ('f', 'i'), ('f4', 'f'), ('f', 'f4'), ('c', 'f4')]))
+    kind = _steer_kind(pair[0], [KF_BD_COMPLEX], steered)
+    Vkind = _steer_kind(pair[1], [KF_BD_COMPLEX], steered)
     shape = draw(gen.shapes(max_rank=3, max_side=3))
     P = draw(st.sampled_from([1, 2, 2, 3, 4]))
     D = draw(st.sampled_from([0, 1, 1, 2, 2, 3, 4, 5]))
     x = draw(_arr(shape, kind))
-    V = draw(_arr(tuple(shape) + (P, D), kind))
-    as_list = kind == 'f' and D > 0 and draw(st.integers(0, 4)) == 0
+    V = draw(_arr(tuple(shape) + (P, D), Vkind))
+    as_list = kind == 'f' and Vkind == 'f' and D > 0 and draw(st.integers(0, 4)) == 0
     case = {'x': x, 'V': V, 'as_list': as_list, 'steered': steered}
+    if not as_list and kind == 'f' and draw(st.sampled_from([False] * 5 + [True])):
+        case['x_longdouble'] = True
+    if not as_list and Vkind == 'f' and draw(st.sampled_from([False] * 7 + [True])):
+        case['V_longdouble'] = True
     if as_list:
         case['layout'] = 'C'
     else:
@@ -263,13 +298,18 @@ def _nt_b2u(case):
 
 def _cl_b2u(case):
     V = case['V']
-    return ['P=%d' % V.shape[-2], 'D=%d' % (V.shape[-1] + 1), 'rank=%d' % case['x'].ndim] + _dtype_classes(V) + _layout_classes(case)
+    xd = 'longdouble' if case.get('x_longdouble') else str(case['x'].dtype)
+    Vd = 'longdouble' if case.get('V_longdouble') else str(V.dtype)
+    return (['P=%d' % V.shape[-2], 'D=%d' % (V.shape[-1] + 1), 'rank=%d' % case['x'].ndim, 'dtypes(x,V)=%s,%s' % (xd, Vd),
+             'x,V-dtypes-%s' % ('equal' if xd == Vd else 'mixed')] + _dtype_classes(V) + _layout_classes(case))
 
 
 def prop_u2b_b2u(case, stats):
     """UTPM (one base point) -> (x, V) -> UTPM"""
     _note_steered(case, stats)
     data = case['data']
+    if case.get('longdouble'):
+        data = data.astype(np.longdouble)
     D, P = data.shape[:2]
     shp = data.shape[2:]
     u = UTPM(_lay_case(case, data))
@@ -295,12 +335,14 @@ def prop_u2b_b2u(case, stats):
 @st.composite
 def u2b_cases(draw):
     steered = []
-    kind = _steer_kind(draw(_kind()), [KF_BD_COMPLEX], steered)
+    kind = _steer_kind(draw(st.sampled_from(['f', 'f', 'f', 'i', 'c', 'c', 'f4'])), [KF_BD_COMPLEX], steered)
     D, P = draw(_DP)
     shape = draw(gen.shapes(max_rank=3, max_side=3))
     data = draw(_arr((D, P) + tuple(shape), kind))
     data[0, :] = data[0, 0]          # one base point shared by all directions (precondition of the (x,V) format)
     case = {'data': data, 'steered': steered}
+    if kind == 'f' and draw(st.sampled_from([False] * 5 + [True])):
+        case['longdouble'] = True
     draw(_draw_layout(case, data.ndim))
     return case
 
@@ -312,7 +354,8 @@ def _nt_data(case):
 
 def _cl_data(case):
     d = case['data']
-    return ['D=%d' % d.shape[0], 'P=%d' % d.shape[1], 'rank=%d' % (d.ndim - 2)] + _dtype_classes(d) + _layout_classes(case)
+    return (['D=%d' % d.shape[0], 'P=%d' % d.shape[1], 'rank=%d' % (d.ndim - 2)] + (['dtype=longdouble'] if case.get('longdouble') else _dtype_classes(d))
+            + _layout_classes(case))
 
 
 def prop_utpm2dirs(case, stats):
@@ -455,13 +498,22 @@ def symvec_cases(draw, operand):
     lead = draw(_DP) if operand == 'utpm' else ()
     A = draw(_arr(tuple(lead) + (N, N), kind))
     eff = 'F' if uplo is None else uplo
-    symmetric = draw(st.booleans()) or (kind == 'i' and eff == 'F')
-    if symmetric:
-        iu = np.triu_indices(N, 1)
-        A = A.copy()
+    # symmetry structure: none / every coefficient / ONLY the zeroth coefficient (all directions) / only the higher ones
+    struct = draw(st.sampled_from(['none', 'all', 'base-only', 'base-only', 'base-only', 'higher-only'] if operand == 'utpm' and lead[0] >= 2
+                                  else ['none', 'all']))
+    if kind == 'i' and eff == 'F':
+        struct = 'all'
+    iu = np.triu_indices(N, 1)
+    A = A.copy()
+    if struct == 'all':
         A[..., iu[1], iu[0]] = A[..., iu[0], iu[1]]      # lower triangle := upper triangle, bit for bit
+    elif struct == 'base-only':
+        A[0][..., iu[1], iu[0]] = A[0][..., iu[0], iu[1]]
+    elif struct == 'higher-only':
+        A[1:][..., iu[1], iu[0]] = A[1:][..., iu[0], iu[1]]
+    symmetric = struct == 'all'
     entry = draw(st.sampled_from(['global', 'global-kw', 'class']))
-    case = {'A': A, 'uplo': uplo, 'operand': operand, 'entry': entry, 'symmetric': bool(symmetric), 'steered': steered}
+    case = {'A': A, 'uplo': uplo, 'operand': operand, 'entry': entry, 'symmetric': bool(symmetric), 'symstruct': struct, 'steered': steered}
     draw(_draw_layout(case, A.ndim, perm=(operand == 'utpm')))
     return case
 
@@ -492,7 +544,7 @@ def _cl_sym(case):
     N = case['A'].shape[-1] if 'A' in case else case['N']
     c = ['N=%d' % N, 'operand=' + case['operand'], 'entry=' + case['entry']] + _dtype_classes(a) + _layout_classes(case)
     if 'A' in case:
-        c += ['uplo=%s' % case['uplo'], 'symmetric=%s' % case['symmetric']]
+        c += ['uplo=%s' % case['uplo'], 'symmetric=%s' % case['symmetric'], 'symstruct=%s' % case.get('symstruct', 'n/a')]
     if case['operand'] == 'utpm':
         c += ['D=%d' % a.shape[0], 'P=%d' % a.shape[1]]
     return c
@@ -507,7 +559,13 @@ def _build_container(case):
     cshape = tuple(case['cshape'])
     pre = (slice(None), slice(None))
     # elements: own contiguous data, or (elem_view) non-contiguous views into one big coefficient array
-    elem = (lambda idx: UTPM(data[pre + idx])) if case.get('elem_view') else (lambda idx: UTPM(data[pre + idx].copy()))
+    base = (lambda idx: UTPM(data[pre + idx])) if case.get('elem_view') else (lambda idx: UTPM(data[pre + idx].copy()))
+    mix = case.get('mix')
+
+    def elem(idx):
+        if mix is not None and tuple(mix['idx']) == tuple(idx):
+            return UTPM(data[pre + idx] + mix['add'])          # ONE element of a wider dtype (int -> float, real -> complex)
+        return base(idx)
     if case['kind'] == 'objarr':
         c = np.empty(cshape, dtype=object)
         for idx in np.ndindex(*cshape):
@@ -526,6 +584,8 @@ def _prop_container(case, stats, fn, name):
     data = case['data'] = np.ascontiguousarray(case['data'])
     cshape = tuple(case['cshape'])
     c = _build_container(case)
+    if case.get('mix') is not None:
+        data = _apply_mix(data, (slice(None), slice(None)) + tuple(case['mix']['idx']), case['mix']['add'])
     z = _is_utpm(guard(fn, c), name)
     _same_bits(z.data, data, '%s(container).data' % name)
     # element-wise indexing back
@@ -571,6 +631,12 @@ def container_cases(draw, which):
     D, P = draw(gen.dims(Dmax=4, Pmax=3)) if crank == 3 else draw(_DP)
     data = draw(_arr((D, P) + cshape + eshape, kind))
     case = {'data': data, 'cshape': cshape, 'kind': ckind, 'steered': steered, 'elem_view': draw(st.booleans())}
+    if kind in ('i', 'f') and int(np.prod(cshape)) >= 2 and draw(st.sampled_from([False, False, True])):
+        idx = tuple(draw(st.integers(0, n - 1)) for n in cshape)
+        if any(idx) and KF.is_open(KF_MIXED_DTYPE):
+            steered.append(KF_MIXED_DTYPE)          # a wide element that is not the first one: open finding
+        else:
+            case['mix'] = {'idx': idx, 'add': draw(_mix_add((D, P) + eshape, kind))}
     if ckind == 'objarr':
         draw(_draw_layout(case, crank))
     else:
@@ -587,6 +653,7 @@ def _cl_cont(case):
     cs = tuple(case['cshape'])
     return ['container=' + case['kind'], 'crank=%d' % len(cs), 'erank=%d' % (d.ndim - 2 - len(cs)),
             'container-square=%s' % (len(set(cs)) == 1), 'elem-view=%s' % bool(case.get('elem_view')),
+            'element-dtypes=%s' % ('uniform' if case.get('mix') is None else ('mixed-first' if not any(case['mix']['idx']) else 'mixed-later')),
             'D=%d' % d.shape[0], 'P=%d' % d.shape[1]] + _dtype_classes(d) + _layout_classes(case)
 
 
@@ -604,27 +671,62 @@ def _model_shift(x, s):
 
 
 def prop_shift(case, stats):
+    """out forms: None (default), 'fresh' (zeros_like), 'recycled' (same shape/dtype, stale non-zero contents),
+    'alias-self' (out is the operand), 'alias-view' (another UTPM object on the operand's data)"""
     _note_steered(case, stats)
     x = case['x']
     s = int(case['s'])
     D = x.shape[0]
     X = UTPM(_lay_case(case, x))
-    call = (lambda a, k: a.shift(k)) if case['form'] == 'method' else (lambda a, k: UTPM.shift(a, k))
+    oform = case.get('out')
+    if oform is None:
+        out = None
+    elif oform == 'fresh':
+        out = UTPM(np.zeros_like(X.data))
+    elif oform == 'recycled':
+        out = UTPM(np.array(case['stale'], dtype=x.dtype, copy=True))
+    elif oform == 'alias-self':
+        out = X
+    elif oform == 'alias-view':
+        out = UTPM(X.data)
+    else:
+        raise KeyError(oform)
+    if out is None:
+        call = (lambda a, k: a.shift(k)) if case['form'] == 'method' else (lambda a, k: UTPM.shift(a, k))
+    else:
+        call = (lambda a, k: a.shift(k, out=out)) if case['form'] == 'method' else (lambda a, k: UTPM.shift(a, k, out=out))
+    plain = (lambda a, k: a.shift(k)) if case['form'] == 'method' else (lambda a, k: UTPM.shift(a, k))
     y = _is_utpm(guard(call, X, s), 'shift')
-    _same_bits(y.data, _model_shift(x, s), 'x.shift(%d).data' % s)
+    what = 'x.shift(%d%s).data' % (s, '' if oform is None else ', out=<%s>' % oform)
+    if out is not None and y is not out:
+        raise Violation('shift(%d, out=out) does not return out' % s)
     if y.data.dtype != x.dtype:
         raise Violation('shift: dtype %s, input %s' % (y.data.dtype, x.dtype))
-    z = _is_utpm(guard(call, y, -s), 'shift')
+    model = _model_shift(x, s)
+    # the coefficients that shift(s) defines from x: orders s..D-1 for s >= 0, orders 0..D-1+s for s < 0
+    lo, hi = (min(s, D), D) if s >= 0 else (0, max(D + s, 0))
+    _same_bits(y.data[lo:hi], model[lo:hi], what + ' [shifted coefficients]')
+    if oform in (None, 'fresh'):
+        # the vacated coefficients are zero (docstring: shift(+1) = [0,x0,x1,x2], shift(-1) = [x1,x2,x3,0])
+        _same_bits(y.data, model, what)
+    # NOT asserted: the vacated coefficients when out held other values before the call (recycled / aliasing the operand);
+    # the unchanged code leaves the previous contents of out there and no docstring or caller defines them
+    z = _is_utpm(guard(plain, y, -s), 'shift')
     keep = np.zeros_like(x)
     if s >= 0:
         keep[:D - s] = x[:D - s]       # the top s coefficients were dropped by the first shift
+        klo, khi = 0, D - s
     else:
         keep[-s:] = x[-s:]             # the lowest |s| coefficients were dropped
-    _same_bits(z.data, keep, 'x.shift(%d).shift(%d).data' % (s, -s))
-    if X.data.tobytes() != x.tobytes():
-        raise Violation('shift modified its argument')
-    if np.shares_memory(y.data, X.data):
-        raise Violation('shift(%d) returns memory shared with its argument' % s)
+        klo, khi = -s, D
+    _same_bits(z.data[klo:khi], keep[klo:khi], what[:-5] + '.shift(%d).data [retained coefficients]' % -s)
+    if oform in (None, 'fresh'):
+        _same_bits(z.data, keep, what[:-5] + '.shift(%d).data' % -s)
+    if oform not in ('alias-self', 'alias-view'):
+        if X.data.tobytes() != x.tobytes():
+            raise Violation('shift modified its argument')
+        if np.shares_memory(y.data, X.data):
+            raise Violation('shift(%d) returns memory shared with its argument' % s)
 
 
 @st.composite
@@ -638,6 +740,10 @@ def shift_cases(draw):
         steered.append(KF_SHIFT_ZERO)
         s = draw(st.sampled_from([1, -1]))
     case = {'x': x, 's': s, 'form': draw(st.sampled_from(['method', 'class'])), 'steered': steered}
+    case['out'] = draw(st.sampled_from([None, None, 'fresh', 'recycled', 'alias-self', 'alias-view']))
+    if case['out'] == 'recycled':
+        stale = draw(_arr(x.shape, 'i' if x.dtype.kind == 'i' else 'f'))
+        case['stale'] = np.where(stale == 0, 7, stale)              # every stale coefficient is non-zero
     draw(_draw_layout(case, x.ndim))
     return case
 
@@ -652,7 +758,7 @@ def _cl_shift(case):
     s = case['s']
     D = x.shape[0]
     sc = 's=0' if s == 0 else ('s=+-D' if abs(s) == D else ('s>0' if s > 0 else 's<0'))
-    return [sc, 'D=%d' % D, 'P=%d' % x.shape[1], 'rank=%d' % (x.ndim - 2)] + _dtype_classes(x) + _layout_classes(case)
+    return [sc, 'out=%s' % case.get('out'), 'D=%d' % D, 'P=%d' % x.shape[1], 'rank=%d' % (x.ndim - 2)] + _dtype_classes(x) + _layout_classes(case)
 
 
 # ---------------------------------------------------------------------------
@@ -746,7 +852,17 @@ def prop_combine(case, stats):
     r0 = [sum(rows[:i]) for i in range(len(rows) + 1)]
     c0 = [sum(cols[:j]) for j in range(len(cols) + 1)]
     blk = (lambda a: a) if case.get('elem_view') else (lambda a: a.copy())      # blocks as views of one buffer, or own data
-    blocks = [[UTPM(blk(data[:, :, r0[i]:r0[i + 1], c0[j]:c0[j + 1]])) for j in range(len(cols))] for i in range(len(rows))]
+    mix = case.get('mix')
+
+    def block(i, j):
+        a = data[:, :, r0[i]:r0[i + 1], c0[j]:c0[j + 1]]
+        if mix is not None and tuple(mix['idx']) == (i, j):
+            return UTPM(a + mix['add'])                         # ONE block of a wider dtype
+        return UTPM(blk(a))
+    blocks = [[block(i, j) for j in range(len(cols))] for i in range(len(rows))]
+    if mix is not None:
+        i, j = mix['idx']
+        data = _apply_mix(data, (slice(None), slice(None), slice(r0[i], r0[i + 1]), slice(c0[j], c0[j + 1])), mix['add'])
     if case['kind'] == 'objarr':
         arg = np.empty((len(rows), len(cols)), dtype=object)
         for i in range(len(rows)):
@@ -776,6 +892,9 @@ def combine_cases(draw):
     D, P = draw(gen.dims(Dmax=4, Pmax=3))
     data = draw(_arr((D, P, sum(rows), sum(cols)), kind))
     case = {'data': data, 'rows': rows, 'cols': cols, 'kind': ckind, 'steered': steered, 'elem_view': draw(st.booleans())}
+    if kind in ('i', 'f') and len(rows) * len(cols) >= 2 and draw(st.sampled_from([False, False, True])):
+        i, j = draw(st.integers(0, len(rows) - 1)), draw(st.integers(0, len(cols) - 1))
+        case['mix'] = {'idx': (i, j), 'add': draw(_mix_add((D, P, rows[i], cols[j]), kind))}
     if ckind == 'objarr':
         draw(_draw_layout(case, 2, perm=False))
     else:
@@ -791,7 +910,8 @@ def _cl_combine(case):
     d = case['data']
     sq = all(r == c for r in case['rows'] for c in case['cols'])
     return (['container=' + case['kind'], 'blocks=%dx%d' % (len(case['rows']), len(case['cols'])),
-             'square-blocks=%s' % sq, 'elem-view=%s' % bool(case.get('elem_view')), 'D=%d' % d.shape[0], 'P=%d' % d.shape[1]]
+             'square-blocks=%s' % sq, 'elem-view=%s' % bool(case.get('elem_view')), 'D=%d' % d.shape[0], 'P=%d' % d.shape[1],
+             'block-dtypes=%s' % ('uniform' if case.get('mix') is None else 'mixed')]
             + _dtype_classes(d) + _layout_classes(case))
 
 
@@ -999,7 +1119,7 @@ def buckets(tier):
                shards=q(1, 2)),
         Bucket('utpm2dirs', utpm2dirs_cases, prop_utpm2dirs, q(250, 5000), nontrivial=_nt_data, classes=_cl_data, shards=q(1, 2)),
         Bucket('symvec-vecsym:ndarray', lambda: symvec_cases('ndarray'), prop_symvec, q(300, 5000), nontrivial=_nt_sym, classes=_cl_sym),
-        Bucket('symvec-vecsym:utpm', lambda: symvec_cases('utpm'), prop_symvec, q(150, 2000), nontrivial=_nt_sym, classes=_cl_sym,
+        Bucket('symvec-vecsym:utpm', lambda: symvec_cases('utpm'), prop_symvec, q(250, 2000), nontrivial=_nt_sym, classes=_cl_sym,
                shards=q(1, 3), weight=4.0),
         Bucket('vecsym-symvec:ndarray', lambda: vecsym_cases('ndarray'), prop_vecsym, q(300, 5000), nontrivial=_nt_sym, classes=_cl_sym),
         Bucket('vecsym-symvec:utpm', lambda: vecsym_cases('utpm'), prop_vecsym, q(150, 2000), nontrivial=_nt_sym, classes=_cl_sym,
